@@ -130,17 +130,33 @@ def run_unit(verif, repo, unit, workdir, rlimit=30, vacuity=False, threads=4):
             continue
         if cls == "note":
             continue
-        labs = []
-        for s in prim + [s for s in spans if s not in prim]:
-            rng = list(range(s["line_start"], s["line_end"] + 1))
-            # a label comment standing alone on the line just above the clause also names it
-            prev = s["line_start"] - 1
-            if 1 <= prev <= len(lines) and re.fullmatch(r"\s*/\*@[^*]*\*/\s*", lines[prev - 1]):
-                rng.insert(0, prev)
-            for ln in rng:
-                for l in line_labels.get(ln, []):
-                    if l not in labs:
-                        labs.append(l)
+        def labels_of(sp):
+            out = []
+            for s in sp:
+                rng = list(range(s["line_start"], s["line_end"] + 1))
+                # a label comment standing alone on the line just above the clause also names it
+                prev = s["line_start"] - 1
+                if 1 <= prev <= len(lines) and re.fullmatch(r"\s*/\*@[^*]*\*/\s*", lines[prev - 1]):
+                    rng.insert(0, prev)
+                for ln in rng:
+                    for l in line_labels.get(ln, []):
+                        if l not in out:
+                            out.append(l)
+            return out
+        # the clause that failed is the primary span, except for a call-site precondition, where the primary span is
+        # the call and the failed `requires` clause of the callee is a secondary span.  Other secondary spans ("at
+        # the end of the function body", "at this exit") cover whole bodies and would attribute unrelated labels.
+        labs = labels_of(prim)
+        if not labs and cls in ("pre", "inv", "decreases"):
+            # (a loop invariant that fails at a `continue`/`break` has that statement as its primary span)
+            labs = labels_of([s for s in spans if s not in prim])
+        if not labs and cls == "decreases" and pl:
+            # "decreases not satisfied at end of loop": the primary span is the loop keyword; the clause (and its
+            # label) is the first `decreases` line of that loop's header
+            for ln in range(pl, min(pl + 80, len(lines)) + 1):
+                if re.match(r"\s*decreases\b", lines[ln - 1]):
+                    labs = labels_of([{"line_start": ln, "line_end": ln}])
+                    break
         # the function whose body failed: any span inside an extracted fn, else nearest fn
         f = None
         for s in spans:
